@@ -112,7 +112,9 @@ fn run_value(v: &Value) -> BTreeMap<&'static str, Option<Value>> {
 
 // ---- templates ----------------------------------------------------------------------------------
 
-const SEGS: [&str; 5] = ["x-", "{{a}}", "{{ b }}", "{{a+1}}", " y"];
+/// literals (ASCII and not), templates over ASCII names, a template over a non-ASCII name and one
+/// holding a non-ASCII string literal
+const SEGS: [&str; 8] = ["x-", "{{a}}", "{{ b }}", "{{a+1}}", " y", "é✓-", "{{ ü }}", "{{ \"日本\" }}"];
 
 fn render(val: &Value) -> String {
     match val {
@@ -140,6 +142,8 @@ fn template_cases() -> Vec<Vec<usize>> {
 fn expected_template(segs: &[usize], a: &Value, b: &Value) -> Value {
     let val = |i: usize| -> Option<Value> {
         match i {
+            6 => Some(json!(7)),
+            7 => Some(json!("日本")),
             1 => Some(a.clone()),
             2 => Some(b.clone()),
             3 => Some(match a {
@@ -171,11 +175,11 @@ fn run_templates(a: &Value, b: &Value, out: &mut ItemOut, viols: &mut BTreeMap<S
     let mut yml = String::from("id: m14t\nsteps:\n  - id: s1\n    acts:\n      - uses: acts.core.msg\n        key: m\n        params:\n");
     for (i, c) in cases.iter().enumerate() {
         let text: String = c.iter().map(|k| SEGS[*k]).collect();
-        yml += &format!("          t{i}: \"{text}\"\n");
+        yml += &format!("          t{i}: \"{}\"\n", text.replace('"', "\\\""));
     }
     let mut sess = Session::new(&Cfg::default());
     sess.deploy(&yml);
-    let _ = sess.start("m14t", &vars_of(&json!({"pid": "p1", "a": a, "b": b})));
+    let _ = sess.start("m14t", &vars_of(&json!({"pid": "p1", "a": a, "b": b, "ü": 7})));
     sess.drain();
     let msg = sess.messages().into_iter().find(|m| m.key == "m");
     let params = msg.map(|m| serde_json::to_value(&m.inputs).unwrap()["params"].clone()).unwrap_or_default();
@@ -185,7 +189,7 @@ fn run_templates(a: &Value, b: &Value, out: &mut ItemOut, viols: &mut BTreeMap<S
         let got = params.get(format!("t{i}")).cloned().unwrap_or(Value::Null);
         out.count("evaluations", 1);
         out.count("template_strings", 1);
-        let ntempl = c.iter().filter(|k| (1..=3).contains(*k)).count();
+        let ntempl = c.iter().filter(|k| matches!(**k, 1 | 2 | 3 | 6 | 7)).count();
         if !same(&got, &exp) {
             let class = match ntempl {
                 0 => "verbatim",
